@@ -325,10 +325,16 @@ func (sc *specCtx) binary(e *CBin) Val {
 			vc.needStrFuns()
 			eq = "(streq " + x.S + " " + y.S + ")"
 		} else {
-			if x.Sort != y.Sort {
+			switch {
+			case x.Sort == SSlice && y.S == "nil":
+				eq = "(= (s-ref " + x.S + ") nil)"
+			case y.Sort == SSlice && x.S == "nil":
+				eq = "(= (s-ref " + y.S + ") nil)"
+			case x.Sort != y.Sort:
 				unsup("spec: comparing different sorts %s and %s in %s", x.Sort, y.Sort, e)
+			default:
+				eq = "(= " + x.S + " " + y.S + ")"
 			}
-			eq = "(= " + x.S + " " + y.S + ")"
 		}
 		if e.Op == "!=" {
 			eq = not(eq)
@@ -771,6 +777,36 @@ func (sc *specCtx) call(e *CCall) Val {
 			return &Term{"(s-ref " + x.S + ")", SRef, nil}
 		}
 		return x
+	case "sarr":
+		// the underlying byte array of a string value (strings are array/offset/length triples)
+		x := arg(0)
+		if x.Sort != SStr {
+			unsup("spec: sarr() takes a string")
+		}
+		return &Term{"(str-arr " + x.S + ")", "(Array " + vc.idxSort() + " " + vc.intSort(8) + ")", nil}
+	case "framed":
+		// framed(s1, s2, ...): every array of this element type that existed at
+		// function entry, other than the backing arrays of the listed slices, is
+		// unchanged since entry (loop frame invariants for append-style code)
+		var hv string
+		conds := []string{"(< (rid r) alloc0)"}
+		for i := range e.Args {
+			x := arg(i)
+			if x.Sort != SSlice || x.T == nil {
+				unsup("spec: framed() takes slices")
+			}
+			h := vc.arrHV(x.T.Underlying().(*types.Slice).Elem())
+			if hv != "" && h != hv {
+				unsup("spec: framed() arguments of different element types")
+			}
+			hv = h
+			conds = append(conds, "(not (= r (s-ref "+x.S+")))")
+		}
+		cur, old := vc.heapGet(sc.st, hv), vc.heapGet(sc.old, hv)
+		if cur == old {
+			return &Term{"true", SBool, nil}
+		}
+		return &Term{"(forall ((r Ref)) (! (=> " + and(conds...) + " (= (select " + cur + " r) (select " + old + " r))) :pattern ((select " + cur + " r))))", SBool, nil}
 	case "absval":
 		// abstract integer value of an opaque object (uninterpreted function of the reference)
 		x := arg(0)
